@@ -86,8 +86,9 @@ class ArrayConstraintBuilder(ConstraintOverrideVisitor):
                     c.accept(self)
 
         if len(self.foreach_scope_s) > 1:
-            for c in scope.constraint_l:
-                self.foreach_scope_s[-2].constraint_l.append(c)
+            # A nested foreach: its expansion belongs where the 
+            # statement stood (e.g. inside the copy of an enclosing if_then)
+            self.constraints.append(scope)
 
         self.index_set.remove(f.index)
         self.foreach_scope_s.pop()
@@ -95,7 +96,10 @@ class ArrayConstraintBuilder(ConstraintOverrideVisitor):
     def visit_constraint_if_else(self, c:ConstraintIfElseModel):
         is_x, val = XExprEvaluator().eval(c.cond)
         
-        if not is_x:
+        # Only fold while a foreach body is being copied. Outside, the 
+        # statement stays in place with both branches, so both must be 
+        # elaborated (a foreach in the branch that is not taken, too)
+        if not is_x and self.do_copy_level > 0:
             # Condition is a constant
             if val:
                 # Process 'true' condition
